@@ -8,6 +8,7 @@ import (
 	"fmt"
 	"os"
 	"path/filepath"
+	"regexp"
 	"sort"
 	"strings"
 
@@ -296,6 +297,29 @@ func main() {
 			}
 		}
 	}
+	if lib.Thorough() || os.Getenv("VERIF_C16_STD") == "1" {
+		sdir := lib.WorkDir("C16", "std")
+		var sb strings.Builder
+		sb.WriteString("package main\n\nimport (\n")
+		for _, p := range stdPkgs {
+			fmt.Fprintf(&sb, "\t_ %q\n", p)
+		}
+		sb.WriteString(")\n\nfunc main() {}\n")
+		lib.WriteProgram(sdir, "vstd", map[string]string{"main.go": sb.String()})
+		sprog, _, err := lib.LoadSSA(sdir, ssa.BuilderMode(0), false, ".")
+		if err != nil {
+			rep.Notes = append(rep.Notes, "std sweep skipped: "+err.Error())
+		} else {
+			n := 0
+			for f := range ssautil.AllFunctions(sprog) {
+				if f.Blocks != nil {
+					fns = append(fns, f)
+					n++
+				}
+			}
+			rep.Extra["std_functions"] = n
+		}
+	}
 	sort.Slice(fns, func(i, j int) bool { return fns[i].String() < fns[j].String() })
 	for i, f := range fns {
 		c := &fnCase{id: fmt.Sprintf("%d", i), fn: f, src: srcs[f.Name()]}
@@ -368,10 +392,16 @@ func main() {
 			}
 		}
 	}
+	nativeCheck(rep, dir, cases, srcs, logger)
 	rep.Extra["functions"] = len(cases)
 	rep.Extra["mismatches"] = mismatches
 	rep.Finish()
 }
+
+var stdPkgs = []string{"fmt", "os", "strings", "bytes", "bufio", "io", "sort", "strconv", "encoding/json", "encoding/xml",
+	"net/http", "net/url", "regexp", "text/template", "html/template", "database/sql", "crypto/tls", "archive/zip", "archive/tar",
+	"compress/gzip", "go/parser", "go/types", "math/big", "path/filepath", "os/exec", "sync", "context", "time", "log", "flag",
+	"encoding/csv", "encoding/gob", "mime/multipart", "net/mail", "net/rpc", "image/png", "testing", "reflect", "runtime/pprof"}
 
 func bucket(n int) int {
 	for _, b := range []int{1, 2, 4, 8, 16, 32, 64} {
@@ -393,3 +423,191 @@ func cfgString(c *fnCase) string {
 	}
 	return strings.Join(ps, " ")
 }
+
+// nativeCheck validates "real executions are instances of the path semantics": generated functions
+// are executed natively for several valuations of the opaque conditions; on a normal return the
+// sequence of executed deferred calls, reversed, must be one of the stacks reported at some
+// RunDefers of that function (bounded functions only).
+func nativeCheck(rep *lib.Report, dir string, cases []*fnCase, srcs map[string]string, logger *config.LogGroup) {
+	limit := 1200
+	if lib.Thorough() {
+		limit = 6000
+	}
+	var sel []*fnCase
+	for _, c := range cases {
+		if c.src == "" || c.fn.Parent() != nil || !strings.Contains(cfgString(c), "d") {
+			continue
+		}
+		res := defers.AnalyzeFunction(c.fn, logger)
+		if !res.DeferStackBounded {
+			continue
+		}
+		sel = append(sel, c)
+		if len(sel) >= limit {
+			break
+		}
+	}
+	if len(sel) == 0 {
+		return
+	}
+	ndir := lib.WorkDir("C16", "native")
+	var sb strings.Builder
+	sb.WriteString(nativePrelude)
+	for _, c := range sel {
+		sb.WriteString("\n" + c.src)
+	}
+	sb.WriteString("\nvar fs = []func(){\n")
+	for _, c := range sel {
+		fmt.Fprintf(&sb, "\tfunc() { %s() },\n", c.fn.Name())
+	}
+	sb.WriteString("}\n")
+	lib.WriteProgram(ndir, "vnative", map[string]string{"main.go": sb.String()})
+	out, err := lib.GoRun(ndir, 300)
+	if err != nil {
+		rep.Notes = append(rep.Notes, "native run failed: "+err.Error())
+		rep.Fail("native-run", "generated defer program does not run natively: "+err.Error(), []byte(out), true)
+		return
+	}
+	runs, normal, checked := 0, 0, 0
+	for _, line := range strings.Split(out, "\n") {
+		f := strings.Fields(line)
+		if len(f) < 3 || f[0] != "R" {
+			continue
+		}
+		runs++
+		if f[2] != "ok" {
+			continue
+		}
+		normal++
+		var idx int
+		fmt.Sscan(f[1], &idx)
+		c := sel[idx]
+		// executed order -> stack order (reverse), as defer ids
+		var ids []string
+		for i := len(f) - 1; i >= 3; i-- {
+			ids = append(ids, f[i])
+		}
+		// map SSA defer sites to defer ids through source lines: the k-th Defer in source order is d(k)
+		siteID := deferIDs(c)
+		res := defers.AnalyzeFunction(c.fn, logger)
+		found := false
+		var rendered []string
+		for _, set := range res.RunDeferSets {
+			for _, st := range set {
+				var got []string
+				for _, ii := range st {
+					got = append(got, siteID[[2]int{ii.Block, ii.Ins}])
+				}
+				rendered = append(rendered, strings.Join(got, "."))
+				if strings.Join(got, ".") == strings.Join(ids, ".") {
+					found = true
+				}
+			}
+		}
+		checked++
+		if !found {
+			sort.Strings(rendered)
+			content := fmt.Sprintf("function %s\n%s\nnative run (cond word %s) executed deferred calls (stack order): %s\nreported stacks (as defer ids): %v\n", c.fn.Name(), c.src, f[1], strings.Join(ids, "."), rendered)
+			rep.Fail("defers-native:"+cfgString(c), "a native execution produced a defer stack that the analysis does not report", []byte(content), false)
+		}
+	}
+	rep.Extra["native_runs"] = runs
+	rep.Extra["native_normal_returns_checked"] = checked
+	_ = normal
+}
+
+// deferIDs maps (block, instr) of each Defer to the id k of `d(k)` on its source line
+// (unreachable defers are absent from the SSA, so source order cannot be used).
+func deferIDs(c *fnCase) map[[2]int]string {
+	m := map[[2]int]string{}
+	for _, b := range c.fn.Blocks {
+		for j, ins := range b.Instrs {
+			if d, ok := ins.(*ssa.Defer); ok {
+				pos := c.fn.Prog.Fset.Position(d.Pos())
+				m[[2]int{b.Index, j}] = idOnLine(pos.Filename, pos.Line)
+			}
+		}
+	}
+	return m
+}
+
+var fileLines = map[string][]string{}
+var dRe = regexp.MustCompile(`d\((\d+)\)`)
+
+func idOnLine(file string, line int) string {
+	ls, ok := fileLines[file]
+	if !ok {
+		b, _ := os.ReadFile(file)
+		ls = strings.Split(string(b), "\n")
+		fileLines[file] = ls
+	}
+	if line-1 < len(ls) {
+		if mm := dRe.FindStringSubmatch(ls[line-1]); mm != nil {
+			return mm[1]
+		}
+	}
+	return "?"
+}
+
+const nativePrelude = `package main
+
+import (
+	"fmt"
+	"os"
+	"bufio"
+)
+
+var cond, cnt, steps int
+var log []int
+
+func tick() {
+	steps++
+	if steps > 400 {
+		panic("budget")
+	}
+}
+
+//go:noinline
+func c() bool { tick(); cnt++; return (cond>>(uint(cnt)%30))&1 == 1 }
+
+//go:noinline
+func always() bool { return c() }
+
+//go:noinline
+func n() int { tick(); cnt++; return (cond >> (uint(cnt) % 30)) & 3 }
+
+//go:noinline
+func nop() { tick() }
+
+//go:noinline
+func d(k int) { log = append(log, k) }
+
+func run(i int, w int, out *bufio.Writer) {
+	cond, cnt, steps, log = w, 0, 0, nil
+	status := "ok"
+	func() {
+		defer func() {
+			if r := recover(); r != nil {
+				status = "panic"
+			}
+		}()
+		fs[i]()
+	}()
+	fmt.Fprintf(out, "R %d %s", i, status)
+	for _, k := range log {
+		fmt.Fprintf(out, " %d", k)
+	}
+	fmt.Fprintln(out)
+}
+
+func main() {
+	out := bufio.NewWriter(os.Stdout)
+	defer out.Flush()
+	words := []int{0, -1, 0x2AAAAAAA, 0x15555555, 0x0F0F0F0F, 0x33333333, 0x1234567, 0x7654321, 0x5A5A5A5, 0x3C3C3C3C, 0x11111111, 0x6DB6DB6D}
+	for i := range fs {
+		for _, w := range words {
+			run(i, w, out)
+		}
+	}
+}
+`
